@@ -1,8 +1,8 @@
-(* C06 -- the text-level round trip for structures (scalars, enums, nested structures). *)
+(* C06 -- the text-level round trip for structures (scalars, enums, nested structures, arrays). *)
 From Coq Require Import ZArith List Bool Lia ZifyBool.
 Import ListNotations.
 Require Import EmbossV.Text.IntCodec EmbossV.Text.ProofsInt EmbossV.Text.ProofsToken EmbossV.Text.StructText
-               EmbossV.Text.ProofsStruct.
+               EmbossV.Text.ProofsStruct EmbossV.Text.ProofsArray.
 Open Scope Z_scope.
 
 Section RT3.
@@ -59,8 +59,8 @@ Section RT3.
                b1 sk false w w' f
                ltac:(unfold sk; destruct (o_multiline o); [apply ws_like_space; reflexivity|apply ws_like_nil])
                ltac:(lia) Hev).
-    - (* VArray: excluded by wf_val *)
-      intros a es _ g o path b pad rest w w' fuel Hwf. cbn [wf_val] in Hwf. contradiction.
+    - (* VArray *)
+      intros a es HF. apply rt_array. exact HF.
   Qed.
 
   (* UpdateFromText(WriteToString(view, options)) performs exactly the TryToWrite calls of the
@@ -76,6 +76,20 @@ Section RT3.
     destruct (rt_val_all (VStruct fs) g o [] [] [] [] w w' fuel Hwf Ho eq_refl (fun _ => I) Hf Hev) as [b' H].
     unfold update_from_text, write_to_string, st_of.
     cbn [app] in H. rewrite app_nil_r in H. cbn [trail_of app] in H.
+    exists (b', []). split; [exact H|reflexivity].
+  Qed.
+
+  (* the same for an array value on its own (multi-line: elements separated by line breaks only;
+     single line: by commas, index markers every 8 elements) *)
+  Lemma array_roundtrip_lem : forall g o a es path w w' fuel,
+    wf_val g (VArray a es) -> opts_ok o -> (need (VArray a es) <= fuel)%nat ->
+    apply_events W tw (events_of g path (VArray a es)) w = Some w' ->
+    exists s, update W tw fuel (schema_of (VArray a es)) path (st_of (write_val g o (VArray a es))) w = UOk s w' /\
+              snd s = [].
+  Proof.
+    intros g o a es path w w' fuel Hwf Ho Hf Hev.
+    destruct (rt_val_all (VArray a es) g o path [] [] [] w w' fuel Hwf Ho eq_refl (fun _ => I) Hf Hev) as [b' H].
+    unfold st_of. cbn [app] in H. rewrite app_nil_r in H. cbn [trail_of app] in H.
     exists (b', []). split; [exact H|reflexivity].
   Qed.
 End RT3.
@@ -119,8 +133,11 @@ Definition ex_names : list (list Z * Z) := [([90; 69; 82; 79], 0); ([79; 78; 69]
 Definition ex_inner : tval :=
   VStruct [(mk_finfo [120] true ANone false false, VInt (mk_ity true W16) (-32768));
            (mk_finfo [107] true AEmit false false, VEnum (mk_ity false W8) ex_names 1)].
+Definition ex_array : tval :=
+  VArray true [VInt (mk_ity false W8) 65; VInt (mk_ity false W8) 35; VInt (mk_ity false W8) 0].
 Definition ex_view : tval :=
-  VStruct [(mk_finfo [116; 97; 103] true ANone false false, VInt (mk_ity false W8) 200);
+  VStruct [(mk_finfo [97; 114; 114] true ANone false false, ex_array);
+           (mk_finfo [116; 97; 103] true ANone false false, VInt (mk_ity false W8) 200);
            (mk_finfo [115] true ASkip false false, VInt (mk_ity false W8) 7);
            (mk_finfo [97; 98; 115] false ANone false false, VInt (mk_ity false W32) 0);
            (mk_finfo [102] true AEmit false false, VBool true);
@@ -140,5 +157,12 @@ Qed.
 
 Lemma ex_roundtrip :
   exists s w, update_from_text (list event) ex_rec 40 (schema_of ex_view) (write_to_string gt_std ex_opts ex_view) []
-              = UOk s w /\ snd s = [] /\ rev w = events_of gt_std [] ex_view /\ length w = 5%nat.
+              = UOk s w /\ snd s = [] /\ rev w = events_of gt_std [] ex_view /\ length w = 8%nat.
 Proof. eexists. eexists. vm_compute. repeat split. Qed.
+
+Definition ex_opts_single : opts := mk_opts [] [] false false false 10.
+Lemma ex_roundtrip_single :
+  opts_ok ex_opts_single /\
+  exists s w, update_from_text (list event) ex_rec 40 (schema_of ex_view) (write_to_string gt_std ex_opts_single ex_view) []
+              = UOk s w /\ snd s = [] /\ rev w = events_of gt_std [] ex_view.
+Proof. split; [repeat split; try reflexivity; right; reflexivity|]. eexists. eexists. vm_compute. repeat split. Qed.
